@@ -123,7 +123,10 @@ class Check:
         short = []
         if only is None:
             for rule, spec in pins.items():
-                need = spec if isinstance(spec, int) else spec.get(self.tier, spec.get("quick", 0))
+                ref = spec if isinstance(spec, int) else spec.get(self.tier, spec.get("quick", 0))
+                # a behaviour-preserving refactoring may merge or split a few sites: the pinned
+                # minimum is 60% of the reference count (at least 1), enough to exclude vacuous passes
+                need = max(1, (ref * 6) // 10) if ref else 0
                 if counts.get(rule, 0) < need:
                     short.append((rule, counts.get(rule, 0), need))
         os.makedirs(os.path.join(EVIDENCE_DIR, "replay"), exist_ok=True)
